@@ -580,6 +580,34 @@ def and1(ts):
         n = bnot(t)
         if n.id in uniq:
             return FALSE
+    # members of the form not(and1(S)): conjuncts of S that are members are true, so drop them from S
+    changed = True
+    guard = 0
+    while changed and guard < 8:
+        changed = False
+        guard += 1
+        for t in list(uniq.values()):
+            if t.op == "aff" and t.w == 1 and (t.aux[0] & 1) and len(t.args) == 1 and t.aux[1] == (1,) and t.args[0].op == "and1":
+                S = t.args[0].args
+                if any(bnot(x).id in uniq for x in S):
+                    del uniq[t.id]  # some conjunct of S is false: not(and1(S)) holds
+                    changed = True
+                    continue
+                rest = [x for x in S if x.id not in uniq]
+                if not rest:
+                    return FALSE
+                if len(rest) < len(S):
+                    del uniq[t.id]
+                    nt = bnot(and1(rest))
+                    if nt.op == "const":
+                        if nt.aux == 0:
+                            return FALSE
+                    elif nt.op == "and1":
+                        for y in nt.args:
+                            uniq[y.id] = y
+                    else:
+                        uniq[nt.id] = nt
+                    changed = True
     if not uniq:
         return TRUE
     if len(uniq) == 1:
@@ -595,8 +623,21 @@ def or1(ts):
 # comparisons (all return 1-bit terms)
 
 
+_EQZ_MEMO = {}
+
+
 def eqz(d):
     """1-bit term: d == 0"""
+    r = _EQZ_MEMO.get(d.id)
+    if r is None:
+        r = _eqz(d)
+        if len(_EQZ_MEMO) > 400000:
+            _EQZ_MEMO.clear()
+        _EQZ_MEMO[d.id] = r
+    return r
+
+
+def _eqz(d):
     if d.op == "const":
         return TRUE if d.aux == 0 else FALSE
     k, v = known_bits(d)
